@@ -111,6 +111,8 @@ class RulesMixin:
             return SymOpaque(ctx.fresh(name, Opaque), name)
         if ty == "none":
             return None
+        if ty == "fullconfig":
+            return self.make_full_config(name)
         if ty == "evclass":
             from .calls import EVENT_CLASS
 
@@ -192,6 +194,32 @@ class RulesMixin:
         if ty.startswith("list("):
             return PList([self.make_symbolic(t, f"{name}.{i}", assume_inv) for i, t in enumerate(_split_top(ty[5:-1], ";")) if t])
         raise ContractError(f"unknown type {ty!r} for {name}")
+
+    def make_full_config(self, name):
+        """a Config instance with every setting symbolic (sort chosen from the class default)"""
+        from hypercorn.config import Config
+
+        obj = SObj(Config, {}, tag=name)
+        for k, v in vars(Config).items():
+            if k.startswith("__") or callable(v) or isinstance(v, (property, classmethod, staticmethod)):
+                continue
+            if isinstance(v, bool):
+                t = "bool"
+            elif isinstance(v, int):
+                t = "int"
+            elif isinstance(v, str):
+                t = "str"
+            elif isinstance(v, float):
+                t = "real"
+            elif isinstance(v, list) and k in ("_bind", "_insecure_bind", "_quic_bind", "server_names", "alt_svc_headers", "alpn_protocols"):
+                t = "strs"
+            else:
+                t = "opaque"
+            obj.fields[k] = self.make_symbolic(t, f"{name}.{k}")
+        for k in getattr(Config, "__annotations__", {}):
+            if k not in obj.fields and not k.startswith("__"):
+                obj.fields[k] = self.make_symbolic("opaque", f"{name}.{k}")
+        return obj
 
     def make_map(self, spec: str, name: str) -> SymMap:
         ctx = self.ctx
@@ -502,6 +530,7 @@ class RulesMixin:
         if ctx.check() == z3.unsat:
             raise PathEnd("callee postcondition unsatisfiable on this path")
         self.run_ghost(fc.ghost_post, env2, fr, module=cmod)
+        self.traces.setdefault("results", []).append((fc.qualname.split(":")[1], self.snap(result, {})))
         if fc.effect == "yields":
             self.yield_point(fr, f"call {fc.qualname.split(':')[1]}")
         return result
